@@ -338,17 +338,42 @@ def _r6_option_condition_is_equality(ctx, C1):
         if pl is None or len(pl) != 1 or b.local_ty(pl[0]) != "bool":
             continue
         loop = min((l for l in loops if sbb in l), key=len)
-        fe = [t for v, t in cfg.switch_edges(sbb) if v == 0]
-        if not fe or not all(t in failed for t in fe):
+        zero = [t for v, t in cfg.switch_edges(sbb) if v == 0]
+        nonzero = [t for v, t in cfg.switch_edges(sbb) if v != 0]
+        if zero and all(t in failed for t in zero) and not all(t in failed for t in nonzero):
+            pol = 1        # the switched value is "the condition holds"
+        elif nonzero and all(t in failed for t in nonzero) and not all(t in failed for t in zero):
+            pol = -1       # the switched value is "the condition does not hold" (`if !holds { return MatchFailed }`)
+        else:
             continue
-        D = pl[0]
-        defs_true = [(bb, st) for bb, idx, st in b.stmts() if tuple(st["p"]) == (D,) and st.get("rv") and st["rv"]["k"] == "use" and
-                     isinstance(st["rv"]["op"].get("k"), dict) and st["rv"]["op"]["k"].get("bool") is True]
-        other = [(bb, st["sp"], "assignment") for bb, idx, st in b.stmts() if tuple(st["p"]) == (D,) and st.get("rv") and not (
-            st["rv"]["k"] == "use" and isinstance(st["rv"]["op"].get("k"), dict) and isinstance(st["rv"]["op"]["k"].get("bool"), bool))]
-        other += [(bb, t2["sp"], (callee_name(t2) or "?").rsplit("::", 1)[-1]) for bb, t2 in b.calls() if tuple(t2["dest"]) == (D,) and
-                  not (callee_name(t2) or "").endswith("::eq")]
-        if not defs_true and not other:
+        defs_true, other = [], []
+        seen_l = set()
+
+        def trace(L, pol, depth=0):
+            if (L, pol) in seen_l or depth > 6:
+                return
+            seen_l.add((L, pol))
+            for bb, idx, st in b.stmts():
+                if tuple(st["p"]) != (L,) or not st.get("rv"):
+                    continue
+                rv = st["rv"]
+                k = rv["op"].get("k") if rv["k"] == "use" else None
+                if rv["k"] == "use" and isinstance(k, dict) and isinstance(k.get("bool"), bool):
+                    if k["bool"] == (pol > 0):
+                        defs_true.append((bb, st))
+                elif rv["k"] == "use" and op_place(rv["op"]) and len(op_place(rv["op"])) == 1:
+                    trace(op_place(rv["op"])[0], pol, depth + 1)
+                elif rv["k"] == "un" and rv.get("op") == "Not" and op_place(rv["a"]) and len(op_place(rv["a"])) == 1:
+                    trace(op_place(rv["a"])[0], -pol, depth + 1)
+                else:
+                    other.append((bb, st["sp"], "assignment"))
+            for bb, t2 in b.calls():
+                if tuple(t2["dest"]) == (L,):
+                    last = (callee_name(t2) or "?").rsplit("::", 1)[-1]
+                    if not ((last == "eq" and pol > 0) or (last == "ne" and pol < 0)):
+                        other.append((bb, t2["sp"], last))
+        trace(pl[0], pol)
+        if not defs_true and not other and not seen_l:
             continue
         n += 1
         eq_true = []
